@@ -110,6 +110,12 @@ Theorem C02_item_checker_sound :
     p_items Repaired t2 = Ok [it1] [] /\ b = true /\ d = true.
 Proof. exact item_code_sound. Qed.
 
+Theorem C02_program_checker_sound :
+  forall its t2 b d, PrintParse.case_code (CProg its t2 b d) = 0%N ->
+    forallb wf_item its = true /\ t2 = print_items its /\
+    p_items Repaired t2 = Ok its [] /\ b = true /\ d = true.
+Proof. exact prog_code_sound. Qed.
+
 Theorem C02_opaque_checker_sound :
   forall a b d, PrintParse.case_code (COpaque a b d) = 0%N -> a = true /\ b = true /\ d = true.
 Proof. exact opaque_code_sound. Qed.
